@@ -10,6 +10,7 @@ import (
 func init() {
 	generators["C01"] = func(tier, out string, sum *Summary) {
 		genSpecCases("C01", tier, out, sum, &Gen{Lets: true}, 3)
+		extraTextCases("C01", tier, out, sum, true, true)
 	}
 }
 
